@@ -371,6 +371,10 @@ def search(ctx, data, rows):
 def replay(ctx, path):
     rec = json.load(open(path))
     rec = rec.get("replay", rec)
+    if "kind" not in rec:
+        # the replay names a broken obligation, not an input: re-run the whole check
+        print("replay: no concrete input recorded (broken obligation); running the full check")
+        return run(ctx)
     if rec.get("kind") == "hw-rot":
         import nv_decomp as nd
         ns = nd.load(ctx.repo)
